@@ -490,6 +490,76 @@ func ruleCloseWithCallers(c *core.Ctx, a *epAnchors, lc *core.LockCache, rule st
 						}
 					}
 				}
+				// a private helper handed the handler of a slot and its index by the function that
+				// holds the mutex (visit(i, h, msg)): the slot is read and tested by the caller, the
+				// helper closes the handler and clears handlers[i] before it returns, without
+				// touching the mutex
+				if hp, isParam := core.Canon(recv).(*ssa.Parameter); isParam && isPrivateHelper(c, fn) {
+					all, _ := c.CallSites()
+					if sites := all[fn]; len(sites) == 1 {
+						cs := sites[0]
+						caller := cs.Parent()
+						pi := -1
+						for i2, q := range fn.Params {
+							if q == hp {
+								pi = i2
+							}
+						}
+						okH := false
+						if _, plain := cs.(*ssa.Call); plain && pi >= 0 && pi < len(cs.Common().Args) {
+							harg := cs.Common().Args[pi]
+							if idx2, ok2 := a.slotLoadIndex(harg); ok2 {
+								isSlot2 := func(v ssa.Value) bool {
+									i3, ok3 := a.slotLoadIndex(v)
+									return ok3 && core.SameValue(i3, idx2)
+								}
+								held, _ := lc.Get(caller).HeldAt(cs.(ssa.Instruction), a.class, true)
+								touches := false
+								for _, c2 := range core.Calls(fn) {
+									if op, isOp := core.LockOpOf(c2); isOp && op.Class == a.class {
+										touches = true
+									}
+								}
+								ld, isLd := core.Canon(harg).(ssa.Instruction)
+								noGap := isLd && ld.Parent() == caller && !unlockBetween(caller, ld, cs.(ssa.Instruction), a.class)
+								clears := func(x ssa.Instruction) bool {
+									st, ok := x.(*ssa.Store)
+									if !ok || !core.IsNilConst(st.Val) {
+										return false
+									}
+									ia, ok := st.Addr.(*ssa.IndexAddr)
+									if !ok || !isFieldOf(ia.X, a.handlers) {
+										return false
+									}
+									q, isQ := core.Canon(ia.Index).(*ssa.Parameter)
+									if !isQ || q.Parent() != fn {
+										return false
+									}
+									for i2, q2 := range fn.Params {
+										if q2 == q && i2 < len(cs.Common().Args) && core.SameValue(cs.Common().Args[i2], idx2) {
+											return true
+										}
+									}
+									return false
+								}
+								cleared := true
+								r := core.ReachFrom(core.After(in), clears, nil)
+								for _, ret := range core.Returns(fn) {
+									if r.Has(ret) {
+										cleared = false
+									}
+								}
+								if held && !touches && noGap && cleared && core.Guarded(caller, cs.(ssa.Instruction), core.Ne(isSlot2, core.IsNilConst)) {
+									okH = true
+								}
+							}
+						}
+						if okH {
+							c.Pass(rule, key, call.Pos(), "the handler and its index are handed down by "+core.FuncKey(caller)+", which read and tested the slot under handlersMutex; the helper closes it and clears the slot before returning")
+							continue
+						}
+					}
+				}
 				c.Fail(rule, key, call.Pos(), "Handler.closeWith is called on a handler that is not read from an endPoint.handlers slot: it can run twice for one handler")
 				continue
 			}
@@ -737,37 +807,92 @@ func ruleSendOwner(c *core.Ctx, a *epAnchors, lc *core.LockCache, rule string) {
 				site := in
 				siteFn := fn
 				hval := ch
+				matchedInHelper := false
+				matchedUp := false
 				if fn != a.dispatch {
+					// the enqueue may live in a private helper (a method of Handler, offer(h, msg,
+					// status), visit(i, h, msg) calling offer …) reached from dispatch only: the
+					// handler is followed up the single chain of plain calls to the slot it was
+					// read from in dispatch, where the conditions are checked
 					sites, _ := c.CallSites()
-					ok := isPrivateHelper(c, fn) && len(sites[fn]) > 0
-					for _, cs := range sites[fn] {
-						if cs.Parent() != a.dispatch {
-							ok = false
-						}
-					}
-					if !ok || len(sites[fn]) != 1 {
-						c.Fail(rule, key, in.Pos(), "a message is sent on a handler queue outside dispatch: it can race with the close of the queue (send on closed channel)")
-						continue
-					}
-					cs := sites[fn][0]
-					if _, plain := cs.(*ssa.Call); !plain {
-						c.Fail(rule, key, in.Pos(), "the enqueue helper is started asynchronously or deferred")
-						continue
-					}
-					// the handler is the helper's receiver/parameter the channel is loaded from
+					cur := fn
 					root := core.RootOf(ch)
-					pi := -1
-					for i, p := range fn.Params {
-						if ssa.Value(p) == root {
-							pi = i
+					var csite ssa.CallInstruction
+					okChain := true
+					for depth := 0; depth < 3 && cur != a.dispatch; depth++ {
+						if !isPrivateHelper(c, cur) || len(sites[cur]) != 1 {
+							okChain = false
+							break
+						}
+						cs := sites[cur][0]
+						if _, plain := cs.(*ssa.Call); !plain {
+							c.Fail(rule, key, in.Pos(), "the enqueue helper is started asynchronously or deferred")
+							okChain = false
+							break
+						}
+						pi := -1
+						for i, p := range cur.Params {
+							if ssa.Value(p) == root {
+								pi = i
+							}
+						}
+						if pi < 0 || pi >= len(cs.Common().Args) {
+							c.Fail(rule, key, in.Pos(), "the queue written by the helper does not belong to the handler it was given")
+							okChain = false
+							break
+						}
+						hv := cs.Common().Args[pi]
+						csite = cs
+						cur = cs.Parent()
+						{
+							// was the filter evaluated at this level, on the handler handed down?
+							hr := core.RootOf(hv)
+							isM := func(v ssa.Value) bool {
+								e, ok := core.Canon(v).(*ssa.Extract)
+								if !ok || e.Index != 0 {
+									return false
+								}
+								call, ok := e.Tuple.(*ssa.Call)
+								if !ok || !isFieldOf(call.Call.Value, a.hFilter) {
+									return false
+								}
+								return core.RootOf(call.Call.Value) == hr
+							}
+							if core.Guarded(cur, cs.(ssa.Instruction), core.IsTrue(isM)) {
+								matchedUp = true
+							}
+						}
+						if cur != a.dispatch {
+							root = core.RootOf(hv)
+							if _, isP := root.(*ssa.Parameter); !isP {
+								okChain = false
+								break
+							}
+						} else {
+							hval = hv
 						}
 					}
-					if pi < 0 {
-						c.Fail(rule, key, in.Pos(), "the queue written by the helper does not belong to the handler it was given")
+					if !okChain || cur != a.dispatch || csite == nil {
+						if okChain || cur != a.dispatch {
+							c.Fail(rule, key, in.Pos(), "a message is sent on a handler queue outside dispatch: it can race with the close of the queue (send on closed channel)")
+						}
 						continue
 					}
-					site, siteFn = cs.(ssa.Instruction), a.dispatch
-					hval = cs.Common().Args[pi]
+					site, siteFn = csite.(ssa.Instruction), a.dispatch
+					// the filter may have been evaluated in the helper itself, on the handler it was given
+					hp := core.RootOf(ch)
+					isMatchedHere := func(v ssa.Value) bool {
+						e, ok := core.Canon(v).(*ssa.Extract)
+						if !ok || e.Index != 0 {
+							return false
+						}
+						call, ok := e.Tuple.(*ssa.Call)
+						if !ok || !isFieldOf(call.Call.Value, a.hFilter) {
+							return false
+						}
+						return core.RootOf(call.Call.Value) == hp
+					}
+					matchedInHelper = core.Guarded(fn, in, core.IsTrue(isMatchedHere)) || matchedUp
 				}
 				if blocking {
 					c.Fail(rule, key, in.Pos(), "dispatch blocks on a full handler queue while holding handlersMutex: one slow consumer stalls the connection (and every RemoveHandler/MakeHandler)")
@@ -810,7 +935,7 @@ func ruleSendOwner(c *core.Ctx, a *epAnchors, lc *core.LockCache, rule string) {
 					}
 					return core.RootOf(call.Call.Value) == hroot
 				}
-				if !core.Guarded(siteFn, site, core.IsTrue(isMatched)) {
+				if !matchedInHelper && !core.Guarded(siteFn, site, core.IsTrue(isMatched)) {
 					c.Fail(rule, key, in.Pos(), "a handler's queue receives a message its own filter did not select")
 					continue
 				}
@@ -1364,6 +1489,50 @@ func ruleCallbacks(c *core.Ctx, a *epAnchors, lc *core.LockCache, rule string) {
 			nUnder++
 			h := cv.Call.Args[0]
 			isKeep := func(v ssa.Value) bool {
+				// the keep answer handed back by a private helper that evaluated the filter
+				// of the handler it was given (keep, ret = e.offer(h, msg, ret))
+				if cr, k := core.CallResult(core.Canon(v)); cr != nil {
+					if g := cr.Call.StaticCallee(); g != nil && isPrivateHelper(c, g) && len(g.Blocks) > 0 {
+						if k < 0 {
+							k = 0
+						}
+						pi := -1
+						okAll := true
+						for _, r := range core.Returns(g) {
+							if k >= len(r.Results) {
+								okAll = false
+								continue
+							}
+							e2, ok := core.Canon(core.ResolveLoad(core.RetVal(r, k))).(*ssa.Extract)
+							if !ok || e2.Index != 1 {
+								okAll = false
+								continue
+							}
+							fc2, ok := e2.Tuple.(*ssa.Call)
+							if !ok || !isFieldOf(fc2.Call.Value, a.hFilter) {
+								okAll = false
+								continue
+							}
+							rp, isP := core.RootOf(fc2.Call.Value).(*ssa.Parameter)
+							if !isP {
+								okAll = false
+								continue
+							}
+							for i2, q := range g.Params {
+								if q == rp {
+									if pi >= 0 && pi != i2 {
+										okAll = false
+									}
+									pi = i2
+								}
+							}
+						}
+						if okAll && pi >= 0 && pi < len(cr.Call.Args) {
+							arg := cr.Call.Args[pi]
+							return core.SameValue(core.Canon(arg), core.Canon(h)) || core.RootOf(arg) == core.RootOf(h)
+						}
+					}
+				}
 				e, ok := core.Canon(v).(*ssa.Extract)
 				if !ok || e.Index != 1 {
 					return false
